@@ -1,5 +1,6 @@
 import LabtechModel.Proofs.Ready
 import LabtechModel.Proofs.InvMain
+import LabtechModel.Proofs.IntrDeps
 /-!
 # C02 — A task never starts before all of its dependencies have finished
 
@@ -22,6 +23,11 @@ from the master invariant `Reach` of `Proofs/InvLoop.lean`):
   which every direct dependency `d` has the value `v` iff `d` was yielded with `ok v` before — so a
   dependency that failed or died has *no* entry and the read raises (`read_is_own_or_raises`);
   `dep_read_value` spells this out per parameter object.
+At every instant of every interrupted run (statement-level model M10, `Proofs/IntrDeps.lean`; no hypothesis):
+* `start_after_deps_every_instant` / `_handler` / `_second` / `start_after_deps_interrupted`: the same
+  statement for the trace of the state after EVERY primitive prefix of the main stream, of the first
+  Ctrl-C handler entered at any instant, and of the second handler entered at any instant of the first;
+  `pending_deps_shrink_only_by_yield`: the mechanism, in all those states.
 Not covered: that `exec t` comes after `start t` of the same task (not recorded in the trace
 predicate), and nested containers (the model's `children` is already the flattened list).
 -/
@@ -225,5 +231,153 @@ example :
     let pr : Problem := { invExP with fails := fun t => t == 1 }
     let tr := (run { invExCfg with backend := .spawn } pr [] 4 (List.replicate 5 chooseAll)).trace
     Ev.yield 1 .exc ∈ tr ∧ Ev.exec 3 [none, some 2000] ∈ tr := by decide
+
+/-! ## at EVERY INSTANT of EVERY INTERRUPTED run (statement granularity, model M10)
+
+`Model/Intr.lean` re-expresses the coordinator loop as a stream of primitives, one per Python statement
+that changes modelled state (`prims_refine_iteration`: executing all primitives of an iteration IS the
+iteration of `Model/Run.lean`). `mainAt … k` is the state after the first `k` primitives of the main
+loop's stream — in the middle of a submit phase, inside `_start_processes`, in the middle of
+`complete_task` — for EVERY `k`; `handlerAt … k ds m` the state after `m` further primitives of the
+`KeyboardInterrupt` handler (`cancel`, drain along `ds`) entered at instant `k`; `secondAt … k ds m m2`
+after `m2` primitives of the second handler (`cancel`, `stop`, one last processing round) entered at
+instant `m` of the first. (Same definitions as in `Props/C04.lean`.) The invariant `DI` of
+`Proofs/IntrDeps.lean` holds in all of them, for every problem, configuration, cache pre-state, fuel,
+schedule and drain schedule; no hypothesis. -/
+
+/-- state after the first `k` primitives of the main loop's stream (`k` beyond its end: the end) -/
+abbrev mainAt (cfg : Config) (p : Problem) (store : Store) (fuel : Nat) (sched : List Choice) (k : Nat) : IS :=
+  stateAt cfg p store fuel sched k
+
+/-- state after `m` primitives of the first interrupt handler entered at instant `k` -/
+abbrev handlerAt (cfg : Config) (p : Problem) (store : Store) (fuel : Nat) (sched : List Choice) (k : Nat)
+    (ds : List Choice) (m : Nat) : IS :=
+  runPrims cfg p ((handlerPrims cfg p (reqTids p) ds (mainAt cfg p store fuel sched k)).take m)
+    (mainAt cfg p store fuel sched k)
+
+/-- state after `m2` primitives of the second handler entered at instant `m` of the first -/
+abbrev secondAt (cfg : Config) (p : Problem) (store : Store) (fuel : Nat) (sched : List Choice) (k : Nat)
+    (ds : List Choice) (m m2 : Nat) : IS :=
+  runPrims cfg p ((secondPrims cfg p (reqTids p) (handlerAt cfg p store fuel sched k ds m)).take m2)
+    (handlerAt cfg p store fuel sched k ds m)
+
+/-- the states of `interruptedRun` (at the interrupt, and final) are among these -/
+theorem interruptedRun_states (cfg : Config) (p : Problem) (store : Store) (fuel : Nat)
+    (sched ds : List Choice) (k : Nat) (k2 : Option Nat) :
+    (∃ k', (interruptedRun cfg p store fuel sched k ds k2).atIntr = mainAt cfg p store fuel sched k') ∧
+    ((∃ k', (interruptedRun cfg p store fuel sched k ds k2).final = mainAt cfg p store fuel sched k') ∨
+     (∃ m, (interruptedRun cfg p store fuel sched k ds k2).final = handlerAt cfg p store fuel sched k ds m) ∨
+     (∃ m m2, (interruptedRun cfg p store fuel sched k ds k2).final = secondAt cfg p store fuel sched k ds m m2)) :=
+  interruptedRun_cases store fuel sched ds k k2
+
+/-- C02 AT EVERY INSTANT of the main loop: in the trace of the state after ANY number `k` of
+    primitives (mid-submit-phase, inside `_start_processes`, mid-`complete_task` included), every
+    `submit t`, `start t` and `exec t` is preceded by a `yield d` of every recorded direct dependency -/
+theorem start_after_deps_every_instant (cfg : Config) (p : Problem) (store : Store) (fuel : Nat)
+    (sched : List Choice) (k : Nat) (pre post : List Ev) (e : Ev) (t : Tid)
+    (he : (∃ uc, e = Ev.submit t uc) ∨ e = Ev.start t ∨ (∃ seen, e = Ev.exec t seen))
+    (h : (mainAt cfg p store fuel sched k).rs.trace = pre ++ e :: post) :
+    ∀ d ∈ (plan cfg p store fuel).ddeps t, ∃ o, Ev.yield d o ∈ pre :=
+  (stateAt_DI store fuel sched k).after_deps pre post e t he h
+
+/-- … and at every instant of the interrupt handler (cancel + drain) entered at any instant `k` -/
+theorem start_after_deps_every_instant_handler (cfg : Config) (p : Problem) (store : Store) (fuel : Nat)
+    (sched : List Choice) (k : Nat) (ds : List Choice) (m : Nat) (pre post : List Ev) (e : Ev) (t : Tid)
+    (he : (∃ uc, e = Ev.submit t uc) ∨ e = Ev.start t ∨ (∃ seen, e = Ev.exec t seen))
+    (h : (handlerAt cfg p store fuel sched k ds m).rs.trace = pre ++ e :: post) :
+    ∀ d ∈ (plan cfg p store fuel).ddeps t, ∃ o, Ev.yield d o ∈ pre :=
+  (handlerStateAt_DI store fuel sched k ds m).after_deps pre post e t he h
+
+/-- … and at every instant of the second handler (double interrupt at any `k`, `m`): cancel, stop and
+    the final processing round -/
+theorem start_after_deps_every_instant_second (cfg : Config) (p : Problem) (store : Store) (fuel : Nat)
+    (sched : List Choice) (k : Nat) (ds : List Choice) (m m2 : Nat) (pre post : List Ev) (e : Ev) (t : Tid)
+    (he : (∃ uc, e = Ev.submit t uc) ∨ e = Ev.start t ∨ (∃ seen, e = Ev.exec t seen))
+    (h : (secondAt cfg p store fuel sched k ds m m2).rs.trace = pre ++ e :: post) :
+    ∀ d ∈ (plan cfg p store fuel).ddeps t, ∃ o, Ev.yield d o ∈ pre :=
+  (secondStateAt_DI store fuel sched k ds m m2).after_deps pre post e t he h
+
+/-- the same for `interruptedRun` itself: the state at the interrupt and the final state, for every
+    interrupt instant `k`, drain schedule `ds` and optional second interrupt instant `k2` -/
+theorem start_after_deps_interrupted (cfg : Config) (p : Problem) (store : Store) (fuel : Nat)
+    (sched ds : List Choice) (k : Nat) (k2 : Option Nat) (pre post : List Ev) (e : Ev) (t : Tid)
+    (he : (∃ uc, e = Ev.submit t uc) ∨ e = Ev.start t ∨ (∃ seen, e = Ev.exec t seen))
+    (h : (interruptedRun cfg p store fuel sched k ds k2).final.rs.trace = pre ++ e :: post ∨
+         (interruptedRun cfg p store fuel sched k ds k2).atIntr.rs.trace = pre ++ e :: post) :
+    ∀ d ∈ (plan cfg p store fuel).ddeps t, ∃ o, Ev.yield d o ∈ pre := by
+  obtain ⟨⟨k', h1⟩, h2⟩ := interruptedRun_states cfg p store fuel sched ds k k2
+  rcases h with h | h
+  · rcases h2 with ⟨k'', h2⟩ | ⟨m, h2⟩ | ⟨m, m2, h2⟩
+    · rw [h2] at h; exact start_after_deps_every_instant cfg p store fuel sched k'' pre post e t he h
+    · rw [h2] at h; exact start_after_deps_every_instant_handler cfg p store fuel sched k ds m pre post e t he h
+    · rw [h2] at h; exact start_after_deps_every_instant_second cfg p store fuel sched k ds m m2 pre post e t he h
+  · rw [h1] at h; exact start_after_deps_every_instant cfg p store fuel sched k' pre post e t he h
+
+/-- the mechanism, at every instant of all three streams: a recorded dependency `d` of `x` that is no
+    longer in `task_to_pending_dependencies[x]` has been yielded — also in the middle of
+    `complete_task`, and whatever the handlers did -/
+theorem pending_deps_shrink_only_by_yield (cfg : Config) (p : Problem) (store : Store) (fuel : Nat)
+    (sched : List Choice) (k : Nat) (ds : List Choice) (m m2 : Nat) (x d : Tid)
+    (hd : d ∈ (plan cfg p store fuel).ddeps x) :
+    (d ∈ (mainAt cfg p store fuel sched k).rs.ts.pendDeps x ∨
+      ∃ o, Ev.yield d o ∈ (mainAt cfg p store fuel sched k).rs.trace) ∧
+    (d ∈ (handlerAt cfg p store fuel sched k ds m).rs.ts.pendDeps x ∨
+      ∃ o, Ev.yield d o ∈ (handlerAt cfg p store fuel sched k ds m).rs.trace) ∧
+    (d ∈ (secondAt cfg p store fuel sched k ds m m2).rs.ts.pendDeps x ∨
+      ∃ o, Ev.yield d o ∈ (secondAt cfg p store fuel sched k ds m m2).rs.trace) := by
+  simp only [← mem_yieldedOf]
+  exact ⟨(stateAt_DI store fuel sched k).pdY x d hd, (handlerStateAt_DI store fuel sched k ds m).pdY x d hd,
+    (secondStateAt_DI store fuel sched k ds m m2).pdY x d hd⟩
+
+/-! non-vacuity at mid-iteration instants and in interrupted runs (`exP`: task 1 needs task 0; `exCfg`:
+    spawn, 4 workers). The main stream (29 primitives): 0 startTask 0, 1 enqueue 0, 2 procStart 0,
+    3 regRunning 0, 4 unregPending 0, 5 regFuture 0, 6 consumeResults, 7 popFuture 0, 8 storeResult 0,
+    9 markInstances 0, 10 removeActive 0, 11 unblockOne 0 1, 12 removeDone, 13 startTask 1,
+    14 enqueue 1, 15 procStart 1, 16 regRunning 1, 17 unregPending 1, 18 regFuture 1, 19 consumeResults … -/
+def exAll : List Choice := [⟨fun _ => true⟩, ⟨fun _ => true⟩, ⟨fun _ => true⟩]
+
+/-- k = 16, strictly between two loop heads (inside `_start_processes`: `process.start()` of task 1
+    done, the running map not yet written): the trace holds `start 1`, after `yield 0` -/
+example : (mainOf exCfg exP [] 3 exAll).length = 29 ∧
+    (mainAt exCfg exP [] 3 exAll 16).rs.trace =
+      [.submit 0 false, .start 0, .waitEnter [] [0], .exec 0 [], .yield 0 (.ok 0), .remove [] [0],
+       .submit 1 false, .start 1] ∧
+    (mainAt exCfg exP [] 3 exAll 16).alive = [1] ∧ (mainAt exCfg exP [] 3 exAll 16).rs.running = [] ∧
+    (plan exCfg exP [] 3).ddeps 1 = [0] := by decide
+
+/-- k = 10, in the middle of `complete_task(0)` (`removeActive 0` done, `unblockOne 0 1` not yet), then
+    the handler runs to its end: task 1 is still blocked and is never submitted -/
+example : (mainAt exCfg exP [] 3 exAll 10).rs.ts.pendDeps 1 = [0] ∧
+    (interruptedRun exCfg exP [] 3 exAll 10 exAll none).outcome = .interrupted ∧
+    (interruptedRun exCfg exP [] 3 exAll 10 exAll none).final.rs.trace =
+      [.submit 0 false, .start 0, .waitEnter [] [0], .exec 0 [], .yield 0 (.ok 0)] := by decide
+
+/-- single interrupt at k = 19 (task 1 submitted and started): the handler's drain executes task 1
+    AFTER the interrupt — the trace at the interrupt has 8 events, `exec 1` is the 10th of the final
+    trace — and `run()` of 1 comes after `yield 0` -/
+example :
+    (interruptedRun exCfg exP [] 3 exAll 19 exAll none).hit = true ∧
+    (interruptedRun exCfg exP [] 3 exAll 19 exAll none).outcome = .interrupted ∧
+    (interruptedRun exCfg exP [] 3 exAll 19 exAll none).atIntr.rs.trace.length = 8 ∧
+    (interruptedRun exCfg exP [] 3 exAll 19 exAll none).final.rs.trace =
+      [.submit 0 false, .start 0, .waitEnter [] [0], .exec 0 [], .yield 0 (.ok 0), .remove [] [0],
+       .submit 1 false, .start 1, .waitEnter [] [1], .exec 1 [some 0], .yield 1 (.ok 1), .remove [0, 1] []] := by
+  decide
+
+/-- double interrupt (k = 19, second one before the first `cancel` step): `stop()` terminates the
+    worker of 1, the last processing round starts nothing; `start 1` is on record, after `yield 0` -/
+example :
+    (interruptedRun exCfg exP [] 3 exAll 19 exAll (some 0)).outcome = .interrupted ∧
+    (interruptedRun exCfg exP [] 3 exAll 19 exAll (some 0)).final.terminated = [1] ∧
+    (interruptedRun exCfg exP [] 3 exAll 19 exAll (some 0)).final.rs.trace =
+      [.submit 0 false, .start 0, .waitEnter [] [0], .exec 0 [], .yield 0 (.ok 0), .remove [] [0],
+       .submit 1 false, .start 1, .waitEnter [] []] := by decide
+
+/-- the theorem applied to that run: the hypotheses are satisfiable and the conclusion is about a real
+    `start` event -/
+example : ∃ o, Ev.yield 0 o ∈ [Ev.submit 0 false, .start 0, .waitEnter [] [0], .exec 0 [], .yield 0 (.ok 0),
+    .remove [] [0], .submit 1 false] :=
+  start_after_deps_interrupted exCfg exP [] 3 exAll exAll 19 (some 0) _ [.waitEnter [] []] (.start 1) 1
+    (Or.inr (Or.inl rfl)) (Or.inl (by decide)) 0 (by decide)
 
 end Lt.Props.C02
